@@ -303,117 +303,192 @@ func c16ClientErrors(e *Env, rule string) {
 		r.Unknown("the socket client's request function", "-", "no function of the socket package dials and returns (…, error)")
 		return
 	}
-	libErr := func(v ssa.Value) bool {
-		v = ir.Resolve(v)
-		if ta, ok := v.(*ssa.TypeAssert); ok {
-			v = ir.Resolve(ta.X)
-		}
-		if ex, ok := v.(*ssa.Extract); ok {
-			if ta, isTA := ex.Tuple.(*ssa.TypeAssert); isTA {
-				v = ir.Resolve(ta.X)
-				if ex2, ok2 := v.(*ssa.Extract); ok2 {
-					v = ex2.Tuple
-				}
-			} else {
-				v = ex.Tuple
-			}
-		}
-		c, ok := v.(*ssa.Call)
-		if !ok {
-			return false
-		}
-		if c.Call.IsInvoke() {
-			return true // a method of a library interface (net.Conn, io.Reader …)
-		}
-		g := c.Call.StaticCallee()
-		return g != nil && !e.P.Funcs[g]
+	type frame struct {
+		call   *ssa.CallCommon
+		callee *ssa.Function
 	}
-	seen := map[*ssa.Function]bool{}
-	var judge func(f *ssa.Function, depth int)
-	judge = func(f *ssa.Function, depth int) {
-		if seen[f] || depth > 3 {
-			return
+	underTimeout := func(site ssa.Instruction) bool {
+		return site != nil && HasVal(e.DCS(site), func(x ssa.Value) bool {
+			c, isC := ir.Resolve(x).(*ssa.Call)
+			return isC && c.Call.IsInvoke() && c.Call.Method.Name() == "Timeout"
+		}, true)
+	}
+	// okErr: v (an error value used at `site`) is nil, a library call's error, the
+	// timeout sentinel under a Timeout() test, or put together from such values by
+	// fmt.Errorf / by helpers of the package (whose parameters stand for the arguments)
+	var okErr func(v ssa.Value, site ssa.Instruction, fr []frame, d int) (bool, string)
+	okErr = func(v ssa.Value, site ssa.Instruction, fr []frame, d int) (bool, string) {
+		if d > 24 {
+			return false, "origin too deep"
 		}
-		seen[f] = true
-		errIdx := f.Signature.Results().Len() - 1
-		for _, b := range f.Blocks {
-			rt, ok := b.Instrs[len(b.Instrs)-1].(*ssa.Return)
-			if !ok || !e.Facts(f).Reachable(b) || errIdx < 0 || errIdx >= len(rt.Results) {
-				continue
+		v = ir.Resolve(v)
+		switch x := v.(type) {
+		case *ssa.Const:
+			if x.Value == nil {
+				return true, ""
 			}
-			for _, rv := range RetVals(rt, errIdx) {
-				v := ir.Resolve(rv)
-				if ir.IsNilConst(v) {
-					continue
+		case *ssa.MakeInterface:
+			return okErr(x.X, site, fr, d+1)
+		case *ssa.ChangeInterface:
+			return okErr(x.X, site, fr, d+1)
+		case *ssa.TypeAssert:
+			return okErr(x.X, site, fr, d+1)
+		case *ssa.Extract:
+			return okErr(x.Tuple, site, fr, d+1)
+		case *ssa.Phi:
+			for _, ed := range x.Edges {
+				if ok, why := okErr(ed, site, fr, d+1); !ok {
+					return false, why
 				}
-				// handed on from a helper of the package: judged there
-				hv := v
-				if ex, isE := hv.(*ssa.Extract); isE {
-					hv = ex.Tuple
+			}
+			return true, ""
+		case *ssa.UnOp:
+			if x.Op == token.MUL {
+				if _, isG := x.X.(*ssa.Global); isG {
+					if underTimeout(site) {
+						return true, ""
+					}
+					for i := len(fr) - 1; i >= 0; i-- {
+						if ci, okI := callInstrOf(fr[i].call); okI && underTimeout(ci) {
+							return true, ""
+						}
+					}
+					return false, "package-level error " + e.C.Render(x) + " returned without a Timeout() test"
 				}
-				if hc, isC := hv.(*ssa.Call); isC {
-					if g := hc.Call.StaticCallee(); g != nil && e.P.Funcs[g] && rootFn(g).Package() == sp && g.Blocks != nil {
-						judge(g, depth+1)
-						continue
+				if al, isA := x.X.(*ssa.Alloc); isA {
+					st := ir.StoresTo(al)
+					if len(st) == 0 {
+						return true, "" // the zero value: nil
+					}
+					for _, sv := range st {
+						if ok, why := okErr(sv, site, fr, d+1); !ok {
+							return false, why
+						}
+					}
+					return true, ""
+				}
+			}
+		case *ssa.Parameter:
+			if len(fr) > 0 {
+				f := fr[len(fr)-1]
+				for i, p := range f.callee.Params {
+					if p == x && i < len(f.call.Args) {
+						ci, _ := callInstrOf(f.call)
+						return okErr(f.call.Args[i], ci, fr[:len(fr)-1], d+1)
 					}
 				}
-				okErr, what := false, e.C.Render(v)
-				var cands []ssa.Value
-				if c, isC := v.(*ssa.Call); isC && ir.IsCallTo(&c.Call, "fmt.Errorf") {
-					cands = variadicElems(c.Call.Args[len(c.Call.Args)-1])
-				} else {
-					cands = []ssa.Value{v}
-				}
-				for _, a := range cands {
+			}
+			return false, "a parameter of the request function itself"
+		case *ssa.Call:
+			if x.Call.IsInvoke() {
+				return true, "" // a method of a library interface (net.Conn, io.Reader, net.Error …)
+			}
+			if ir.IsCallTo(&x.Call, "fmt.Errorf") {
+				n := 0
+				for _, a := range variadicElems(x.Call.Args[len(x.Call.Args)-1]) {
 					a = ir.Resolve(a)
-					for d := 0; d < 3; d++ {
-						switch x := a.(type) {
+					inner := a
+					for k := 0; k < 3; k++ {
+						switch y := inner.(type) {
 						case *ssa.MakeInterface:
-							a = ir.Resolve(x.X)
+							inner = ir.Resolve(y.X)
 							continue
 						case *ssa.ChangeInterface:
-							a = ir.Resolve(x.X)
+							inner = ir.Resolve(y.X)
 							continue
 						}
 						break
 					}
-					if !ir.IsErrorType(a.Type()) {
-						if _, isIface := a.Type().Underlying().(*types.Interface); !isIface {
+					if !ir.IsErrorType(inner.Type()) {
+						if _, isIface := inner.Type().Underlying().(*types.Interface); !isIface || inner == a {
 							continue
 						}
 					}
-					if libErr(a) {
-						okErr = true
-						continue
-					}
-					// an error parameter of a wrapping helper: what the callers hand in is judged at their returns
-					if _, isP := a.(*ssa.Parameter); isP && f != req {
-						okErr = true
-						continue
-					}
-					// the timeout sentinel: a package-level error returned under a Timeout() test
-					if u, isU := a.(*ssa.UnOp); isU && u.Op == token.MUL {
-						if _, isG := u.X.(*ssa.Global); isG {
-							underTimeout := HasVal(e.DCS(rt), func(x ssa.Value) bool {
-								c, isC := ir.Resolve(x).(*ssa.Call)
-								return isC && c.Call.IsInvoke() && c.Call.Method.Name() == "Timeout"
-							}, true)
-							if underTimeout {
-								okErr = true
-							} else {
-								okErr, what = false, "package-level error "+e.C.Render(a)+" returned without a Timeout() test"
-								break
-							}
-						}
+					n++
+					if ok, why := okErr(inner, x, fr, d+1); !ok {
+						return false, why
 					}
 				}
-				r.Check(okErr, shortName(f)+": the error returned is a failure of the connection (or the timeout sentinel)", e.InstrPos(rt),
-					"the socket client reports a failure that is not a failure of the connection: the already-running probe and the status getter read every non-timeout error as `no run is alive`, so while the run is alive a second run of the same DAG is admitted and the live run is reported as not running",
-					"returned: "+what)
+				if n == 0 {
+					return false, "an error made up by the client: " + e.C.Render(x)
+				}
+				return true, ""
+			}
+			g := x.Call.StaticCallee()
+			if g == nil {
+				return false, "a dynamic call"
+			}
+			if !e.P.Funcs[g] {
+				if ir.IsCallTo(&x.Call, "errors.New") {
+					return false, "an error made up by the client: " + e.C.Render(x)
+				}
+				return true, "" // a library call's error
+			}
+			if g.Blocks == nil || len(fr) > 5 {
+				return false, "helper not followed: " + shortName(g)
+			}
+			errIdx := g.Signature.Results().Len() - 1
+			nf := append(append([]frame{}, fr...), frame{&x.Call, g})
+			for _, b := range g.Blocks {
+				rt, isR := b.Instrs[len(b.Instrs)-1].(*ssa.Return)
+				if !isR || !e.Facts(g).Reachable(b) || errIdx < 0 || errIdx >= len(rt.Results) {
+					continue
+				}
+				for _, rv := range RetVals(rt, errIdx) {
+					if ok, why := okErr(rv, rt, nf, d+1); !ok {
+						return false, why
+					}
+				}
+			}
+			return true, ""
+		}
+		return false, "comes from " + e.C.Render(v)
+	}
+	errIdx := req.Signature.Results().Len() - 1
+	for _, b := range req.Blocks {
+		rt, ok := b.Instrs[len(b.Instrs)-1].(*ssa.Return)
+		if !ok || !e.Facts(req).Reachable(b) || errIdx >= len(rt.Results) {
+			continue
+		}
+		for _, rv := range RetVals(rt, errIdx) {
+			if ir.IsNilConst(ir.Resolve(rv)) {
+				continue
+			}
+			good, why := okErr(rv, rt, nil, 0)
+			r.Check(good, shortName(req)+": the error returned is a failure of the connection (or the timeout sentinel)", e.InstrPos(rt),
+				"the socket client reports a failure that is not a failure of the connection: the already-running probe and the status getter read every non-timeout error as `no run is alive`, so while the run is alive a second run of the same DAG is admitted and the live run is reported as not running",
+				"returned: "+e.C.Render(ir.Resolve(rv)), why)
+		}
+	}
+}
+
+// callInstrOf: the call instruction a CallCommon belongs to.
+func callInstrOf(c *ssa.CallCommon) (ssa.Instruction, bool) {
+	if c == nil {
+		return nil, false
+	}
+	if v, ok := c.Value.(ssa.Value); ok && v != nil {
+		for _, holder := range []*[]ssa.Instruction{v.Referrers()} {
+			if holder == nil {
+				continue
+			}
+			for _, ref := range *holder {
+				if ci, isCI := ref.(ssa.CallInstruction); isCI && ci.Common() == c {
+					return ci, true
+				}
 			}
 		}
 	}
-	judge(req, 0)
+	for _, a := range c.Args {
+		if rs := a.Referrers(); rs != nil {
+			for _, ref := range *rs {
+				if ci, isCI := ref.(ssa.CallInstruction); isCI && ci.Common() == c {
+					return ci, true
+				}
+			}
+		}
+	}
+	return nil, false
 }
 
 // ---------------------------------------------------------------------------
